@@ -753,6 +753,7 @@ func runCheck(id, tier string) int {
 
 	// merge
 	tot := &Summary{Outcomes: map[string]int{}, Probes: map[string]int{}, Faults: map[string]int{}, Strategies: map[string]int{}}
+	simSec := 0.0 // float: the total of a thorough campaign exceeds what int64 nanoseconds hold (292 years)
 	distinct := map[uint64]struct{}{}
 	distinctSc := map[uint64]struct{}{}
 	var infra []string
@@ -772,6 +773,7 @@ func runCheck(id, tier string) int {
 		tot.Steps += s.Steps
 		tot.Stalls += s.Stalls
 		tot.SimNs += s.SimNs
+		simSec += float64(s.SimNs) / 1e9
 		tot.Nontrivial += s.Nontrivial
 		if wr.cfg == nil || wr.cfg.ID == id || tot.Rule == "" {
 			tot.Rule, tot.Real, tot.Stub, tot.Assume = s.Rule, s.Real, s.Stub, s.Assume
@@ -871,7 +873,7 @@ func runCheck(id, tier string) int {
 		"distinct_schedule_traces":    len(distinctSc),
 		"runs_per_hour":               int(float64(tot.Runs) / runWall * 3600),
 		"seed_range":                  fmt.Sprintf("%d<<32 + [0,%d)", seed, nextBlock*tc.Block),
-		"simulated_seconds_total":     float64(tot.SimNs) / 1e9,
+		"simulated_seconds_total":     simSec,
 		"steps_total":                 tot.Steps,
 		"stalls_total":                tot.Stalls,
 		"faults_fired":                tot.Faults,
@@ -913,7 +915,7 @@ func runCheck(id, tier string) int {
 		fatal2("write evidence: %v", err)
 	}
 	fmt.Printf("%s %s: runs=%d nontrivial=%d distinct=%d steps=%d sim=%.0fs outcomes=%v wall=%.1fs (build %.1fs)\n",
-		id, tier, tot.Runs, tot.Nontrivial, len(distinct), tot.Steps, float64(tot.SimNs)/1e9, tot.Outcomes, wall, bo.buildS)
+		id, tier, tot.Runs, tot.Nontrivial, len(distinct), tot.Steps, simSec, tot.Outcomes, wall, bo.buildS)
 	if exit == 1 {
 		return 1
 	}
